@@ -41,28 +41,38 @@ Theorem bounded_steps :
 Proof. exact CapsProofs.bounded_steps. Qed.
 Print Assumptions bounded_steps.
 
-(* the PE resource walk (levels from the generated rsrc_max_level /
-   rsrc_deepest_level, no memory of visited directories): directories parsed
-   and entries iterated are bounded by a polynomial of degree 2 resp. 3 in the
-   number of entries per directory; the leaves kept are additionally capped by
-   MAX_PE_RESOURCES (collect-to-cap, bounded_steps) ... *)
+(* the PE resource walk (level cut, queue guard and the cap on examined entries
+   are generated from the source; no memory of visited directories): the
+   number of directory entries examined is at most
+   min(E(1 + E + E^2), MAX_PE_RESOURCE_DIR_ENTRIES + 1), hence bounded by a
+   CONSTANT that does not depend on the file ("time bounded by a modest
+   function of the input size" holds for this walk); the leaves kept are
+   additionally capped by MAX_PE_RESOURCES (collect-to-cap, bounded_steps) *)
 Theorem rsrc_walk_bounded : forall g E, (forall d, length (g d) <= E) -> forall root,
+  (rsrc_entries_examined g root <= N.min (N.of_nat (E * (1 + E + E ^ 2))) (pe_MAX_PE_RESOURCE_DIR_ENTRIES + 1))%N /\
+  (rsrc_entries_examined g root <= pe_MAX_PE_RESOURCE_DIR_ENTRIES + 1)%N.
+Proof. exact CapsProofs.rsrc_examined_bounded. Qed.
+Print Assumptions rsrc_walk_bounded.
+
+(* without the counter: directories dequeued and entries met, quadratic resp.
+   cubic in the entries per directory (what the counter cuts short) *)
+Theorem rsrc_walk_uncapped_bounded : forall g E, (forall d, length (g d) <= E) -> forall root,
   rsrc_dirs_parsed g root <= 1 + E + E ^ 2 /\
   rsrc_entries_iterated g root <= E * (1 + E + E ^ 2).
 Proof. exact CapsProofs.rsrc_walk_bounded. Qed.
-Print Assumptions rsrc_walk_bounded.
+Print Assumptions rsrc_walk_uncapped_bounded.
 
-(* ... no directory is dequeued at a level whose entries are all skipped (the
-   repaired defect: level-3 directories used to be queued and parsed) ... *)
+(* no directory is dequeued at a level whose entries are all skipped (repaired
+   defect: level-3 directories used to be queued and parsed) *)
 Theorem rsrc_no_wasted_level : rsrc_deepest_level <= rsrc_max_level.
 Proof. exact CapsProofs.rsrc_no_wasted_level. Qed.
 Print Assumptions rsrc_no_wasted_level.
 
-(* ... and the bound is exact for two directories of e entries that point back
-   at the second one: the walk remains cubic in a 16-bit count, see the
-   measured times in checks/C11.py *)
+(* the bound is exact for two directories of e entries that point back at the
+   second one: the polynomial while it is below the cap, the cap itself (plus
+   the entry that trips it) from 102 entries per directory on *)
 Theorem rsrc_walk_bound_reached : forall e,
-  rsrc_dirs_parsed (bomb e) 0 = 1 + e + e ^ 2 /\
-  rsrc_entries_iterated (bomb e) 0 = e * (1 + e + e ^ 2).
-Proof. exact CapsProofs.rsrc_walk_bound_reached. Qed.
+  rsrc_entries_examined (bomb e) 0 = N.min (N.of_nat (e * (1 + e + e ^ 2))) (pe_MAX_PE_RESOURCE_DIR_ENTRIES + 1) /\
+  (102 <= e -> rsrc_entries_examined (bomb e) 0 = (pe_MAX_PE_RESOURCE_DIR_ENTRIES + 1)%N).
+Proof. exact CapsProofs.rsrc_examined_reached. Qed.
 Print Assumptions rsrc_walk_bound_reached.
